@@ -303,7 +303,8 @@ def solve (L : NLits α) (S : Setup α) (ode jac : Nat → α → Array α → A
       currentH := currentH * factor
       hTry := currentH
       hSigned := direction * hTry
-      xNew := x + hSigned
+      -- land on xend itself
+      xNew := xend
       nEqual := 0
       luCurrent := false
     if Num.eqb (x + L.tenth * Num.abs hSigned) x then
